@@ -289,11 +289,24 @@ Definition find_descendants (s : mst) (name : str) : list nat :=
   let ds := map snd (filter (fun kv => prefixb (name ++ s_slash) (fst kv)) (mdata s)) in
   sort_by (fun a b => Nat.ltb (depth (node_name s a)) (depth (node_name s b))) ds.
 
+(* d, err := m.lockfreeOpen(filepath.Dir(name)); err == nil && mem.GetFileInfo(d).IsDir() *)
+Definition dir_is_dir (s : mst) (name : str) : bool :=
+  match lockfree_open s (path_dir name) with
+  | Some d => match get_node s d with Some n => ndir n | None => false end
+  | None => false
+  end.
+
 Definition m_rename (s : mst) (old0 new0 : str) : mst * res :=
   let old := normalize_path old0 in
   let new := normalize_path new0 in
   match lookup s old with
-  | None => (s, RErr (EW KNotExist))
+  | None =>
+    (* switch memfs_rename_missing_source_enotdir (Gen/Consts.v, from the AST of Rename): 1 = the
+       directory of the source is resolved, then the directory of the target, before the source is
+       looked for — the directory of the source is a directory and the target lies below a regular
+       file: ENOTDIR (what rename(2) answers); 0 = the code before that repair: not-exist *)
+    if (memfs_rename_missing_source_enotdir =? 1) && dir_is_dir s old && below_file s new
+    then (s, RErr (EW KENOTDIR)) else (s, RErr (EW KNotExist))
   | Some f =>
     if beqb old new then (s, ROk) else
     if below_file s new then (s, RErr (EW KENOTDIR)) else
